@@ -49,6 +49,9 @@ pub enum Prop {
     /// C20's sub-poll batch: several tasks on one MainDevice, task 0 disturbs (its requests are lost,
     /// time out, are retried or abandoned at any instant); the others must not notice.
     C20,
+    /// C04's wire-monitor batch: the fault mix of C06 (deadlines, retries, loss, abandonment at any
+    /// instant) with only the wire monitor and the result oracles active.
+    C04,
 }
 
 #[derive(Clone, Copy, Debug, PartialEq, Eq)]
@@ -203,6 +206,9 @@ pub struct ScenCfg {
     pub dup: u32,
     /// Deliver responses even before the slot reached Sent (outside C01's precondition).
     pub early: u32,
+    /// Percentage of responses that come back longer than the request (trailing bytes after the
+    /// last datagram, announced by the EtherCAT length field), as far as the slot has room.
+    pub long_resp: u32,
     pub garbage: u32,
     /// Which task is "under observation" for C06 (losses apply only to it); None = all.
     pub observed: Option<usize>,
@@ -549,7 +555,7 @@ fn judge_err(sh: &Sh, req: usize, e: Error, wkc_mode: WkcMode) -> ReqStatus {
             ReqStatus::Completed
         }
         Error::Pdu(PduError::SwapState) => ReqStatus::NotIssued,
-        Error::Timeout(_) if prop == Prop::C06 || prop == Prop::C03 || prop == Prop::C20 => {
+        Error::Timeout(_) if prop == Prop::C06 || prop == Prop::C03 || prop == Prop::C20 || prop == Prop::C04 => {
             let _ = (all_lost, any_lost);
             ReqStatus::Failed(format!("{:?}", e))
         }
@@ -1121,7 +1127,22 @@ fn wire_send(sh: &Sh, bytes: &[u8]) -> Result<usize, Error> {
             d.set_adp(adp);
         }
     }
-    let bytes_out = wire::encode_response(&resp);
+    let mut bytes_out = wire::encode_response(&resp);
+    let mut long_fired = false;
+    if s.cfg.long_resp > 0 {
+        let room = s.cfg.frame_len.saturating_sub(bytes_out.len());
+        if room > 0 && with(|c| c.tape.flag(s.cfg.long_resp, 100, "long_response")) {
+            let k = 1 + with(|c| c.tape.choose(room.min(40), "long_response_extra"));
+            let hdr = u16::from_le_bytes([bytes_out[14], bytes_out[15]]);
+            let len = (hdr & 0x07ff) as usize + k;
+            if len <= 0x07ff {
+                let hdr = (hdr & !0x07ff) | len as u16;
+                bytes_out[14..16].copy_from_slice(&hdr.to_le_bytes());
+                bytes_out.extend(std::iter::repeat(0xEE).take(k));
+                long_fired = true;
+            }
+        }
+    }
     let observed = s.cfg.observed.map_or(true, |t| t == s.reqs[req].task);
     let lose_all = s.reqs[req].all_lost;
     let (loss, dup, early) = (s.cfg.loss, s.cfg.dup, s.cfg.early);
@@ -1138,6 +1159,9 @@ fn wire_send(sh: &Sh, bytes: &[u8]) -> Result<usize, Error> {
     let mut s = sh.borrow_mut();
     if is_early {
         s.fault("early");
+    }
+    if long_fired {
+        s.fault("long_response");
     }
     if is_early && crate::tape::gen() >= 2 {
         // A premature copy (deliverable at once) in addition to the regular response.
@@ -1317,7 +1341,7 @@ pub struct RunOutcome {
 /// Draw a scenario configuration for `prop` from the tape (swarm style: every run differs).
 pub fn draw_cfg(prop: Prop, t: &mut Tape, thorough: bool) -> ScenCfg {
     let slots = match prop {
-        Prop::C06 => t.pick(&[1usize, 2, 1, 2, 4], "slots"),
+        Prop::C06 | Prop::C04 => t.pick(&[1usize, 2, 1, 2, 4], "slots"),
         Prop::C20 => t.pick(&[4usize, 8], "slots"),
         _ => t.pick(&[2usize, 1, 4, 2, 1, 8], "slots"),
     };
@@ -1337,7 +1361,7 @@ pub fn draw_cfg(prop: Prop, t: &mut Tape, thorough: bool) -> ScenCfg {
     // gen >= 2: C02 also covers the owner letting go by dropping its future (no deadlines), at any
     // instant - also while the transmit or receive side is inside the buffer.
     let c02_abandon = prop == Prop::C02 && crate::tape::gen() >= 2 && t.flag(35, 100, "c02_abandon");
-    let abandon_enabled = matches!(prop, Prop::C03 | Prop::C06 | Prop::C20) || c02_abandon;
+    let abandon_enabled = matches!(prop, Prop::C03 | Prop::C06 | Prop::C20 | Prop::C04) || c02_abandon;
     let mut tasks = Vec::new();
     for ti in 0..n_tasks {
         let n_ops = 1 + t.choose(max_ops, "n_ops");
@@ -1453,6 +1477,7 @@ pub fn draw_cfg(prop: Prop, t: &mut Tape, thorough: bool) -> ScenCfg {
         loss: 0,
         dup: 0,
         early: 0,
+        long_resp: 0,
         garbage: 0,
         observed: None,
         lose_all_observed: false,
@@ -1530,6 +1555,22 @@ pub fn draw_cfg(prop: Prop, t: &mut Tape, thorough: bool) -> ScenCfg {
             cfg.loss = if cfg.lose_all_observed { 0 } else { t.pick(&[40u32, 0, 70], "loss_rate") };
             cfg.dup = t.pick(&[0u32, 20], "dup");
             cfg.trans = TransMode::WithDeadlines;
+            cfg.tx_multi_read = true;
+        }
+        Prop::C04 => {
+            cfg.pdu_timeout_us = t.pick(&[1000u64, 50, 30_000, 7], "timeout");
+            cfg.retry = match t.choose(4, "retry") {
+                0 => RetryBehaviour::None,
+                k => RetryBehaviour::Count(k),
+            };
+            cfg.timer_fire = t.pick(&[(5u32, 100u32), (1, 100), (20, 100), (0, 1)], "timer_rate");
+            cfg.loss = t.pick(&[30u32, 0, 60], "loss_rate");
+            cfg.tx_error = t.pick(&[0u32, 0, 15], "tx_error_rate");
+            cfg.tx_partial = t.pick(&[0u32, 15], "tx_partial_rate");
+            cfg.dup = t.pick(&[0u32, 20], "dup");
+            cfg.early = t.pick(&[0u32, 0, 25], "early_copy");
+            cfg.long_resp = t.pick(&[30u32, 0, 60], "long_response");
+            cfg.trans = TransMode::Off;
             cfg.tx_multi_read = true;
         }
         Prop::C06 => {
@@ -1718,6 +1759,7 @@ pub fn run_scenario(cfg: ScenCfg, tape: Tape, nonce: u64) -> RunOutcome {
         Prop::C03 => s.reqs.len() >= 2 && faults_fired >= 1,
         Prop::C06 => faults_fired >= 1 && ctx.inside_pdu_loop_switches >= 1,
         Prop::C20 => faults_fired >= 1 && s.stats.overlap_max >= 2 && ctx.inside_pdu_loop_switches >= 1,
+        Prop::C04 => faults_fired >= 1 && s.stats.frames_tx >= 2,
         _ => s.stats.overlap_max >= 2 && ctx.inside_pdu_loop_switches >= 1,
     };
     let reqs_summary = s
@@ -1815,7 +1857,7 @@ fn end_of_run_checks(sh: &Sh, end: RunEnd) {
                     }
                 }
             }
-            Prop::C03 => {}
+            Prop::C03 | Prop::C04 => {}
             Prop::C06 | Prop::C20 => {
                 if r.status == ReqStatus::Issued {
                     with(|c| {
